@@ -125,6 +125,7 @@ func init() {
 	reg(zz+"And", func(c *CallCtx, a []Value) []Outcome { return ret1(And(a[0].(*Term), a[1].(*Term))) })
 	reg(zz+"Or", func(c *CallCtx, a []Value) []Outcome { return ret1(Or(a[0].(*Term), a[1].(*Term))) })
 	reg(zz+"Implies", func(c *CallCtx, a []Value) []Outcome { return ret1(Implies(a[0].(*Term), a[1].(*Term))) })
+	reg(zz+"IsLowerASCII", func(c *CallCtx, a []Value) []Outcome { return ret1(isLowerT(a[0].(*Term))) })
 	reg(zz+"Assume", func(c *CallCtx, a []Value) []Outcome {
 		return []Outcome{{Cond: a[0].(*Term)}}
 	})
@@ -137,23 +138,32 @@ func init() {
 	reg(zz+"Cover", func(c *CallCtx, a []Value) []Outcome {
 		id := constStr(a[0], "cover id")
 		c.E.mu.Lock()
-		c.E.Covers[id]++
 		first := c.E.CoverModels[id] == nil
 		c.E.mu.Unlock()
-		if first {
-			v, m, _ := c.S.pf.Check(c.E.withEvals(c.S, c.S.pcTerms()), c.E.Cfg.AssertMs, true)
-			if v == Sat {
-				sc := c.E.scenario(c.S, m, id)
-				c.E.mu.Lock()
-				c.E.CoverModels[id] = sc
-				c.E.mu.Unlock()
-			} else if v == Unsat {
-				// the path was kept on an unknown feasibility verdict but is infeasible
-				c.E.mu.Lock()
-				c.E.Covers[id]--
-				c.E.mu.Unlock()
+		cm := c.S.model
+		if cm == nil || NoModelReuse {
+			// no cached witness for this path: ask once (bounded) whether the path is feasible
+			v, m, syms, _ := c.S.pf.CheckSyms(c.E.withEvals(c.S, c.S.pcTerms()), 4*c.E.Cfg.FeasMs, true)
+			if v == Unsat {
 				return []Outcome{{Cond: TFalse}}
 			}
+			if v != Sat {
+				c.E.mu.Lock()
+				c.E.Covers[id+" (feasibility unknown)"]++
+				c.E.mu.Unlock()
+				return retNone()
+			}
+			cm = NewCachedModel(nil, m, syms)
+			c.S.model = cm
+		}
+		c.E.mu.Lock()
+		c.E.Covers[id]++
+		c.E.mu.Unlock()
+		if first {
+			sc := c.E.scenario(c.S, cm, id)
+			c.E.mu.Lock()
+			c.E.CoverModels[id] = sc
+			c.E.mu.Unlock()
 		}
 		return retNone()
 	})
@@ -206,6 +216,15 @@ func init() {
 		c.S.W.store(n).Open = true
 		return retNone()
 	})
+	reg(zz+"AssumeNoKeysWithPrefix", func(c *CallCtx, a []Value) []Outcome {
+		n := constStr(a[0], "store name")
+		m := c.S.W.store(n)
+		m.Closed = append(append([]*Term(nil), m.Closed...), a[1].(*Term))
+		c.E.mu.Lock()
+		c.E.Bounds["empty-prefix:"+n+":"+constStr(a[1], "prefix")] = 1
+		c.E.mu.Unlock()
+		return retNone()
+	})
 	reg(zz+"SetSliceBound", func(c *CallCtx, a []Value) []Outcome {
 		c.S.W.SliceBound = c.E.concreteInt(c.S, a[0], "slice bound")
 		return retNone()
@@ -217,6 +236,34 @@ func init() {
 		c.E.mu.Unlock()
 		return retNone()
 	})
+	reg(zz+"WFKey", func(c *CallCtx, a []Value) []Outcome {
+		sl := a[2].(*SliceV)
+		var parts []string
+		for i := 0; i < sl.Len; i++ {
+			parts = append(parts, constStr(c.S.load(&Ptr{Obj: sl.Arr, Path: []int{sl.Off + i}}), "WFKey part"))
+		}
+		c.S.W.Ghost["wfkey:"+constStr(a[0], "store")+":"+constStr(a[1], "type")] = parts
+		return retNone()
+	})
+	reg(zz+"WFAddr", func(c *CallCtx, a []Value) []Outcome {
+		sl := a[1].(*SliceV)
+		var parts []string
+		for i := 0; i < sl.Len; i++ {
+			parts = append(parts, constStr(c.S.load(&Ptr{Obj: sl.Arr, Path: []int{sl.Off + i}}), "WFAddr field"))
+		}
+		c.S.W.Ghost["wfaddr:"+constStr(a[0], "type")] = parts
+		return retNone()
+	})
+	reg(zz+"WF", func(c *CallCtx, a []Value) []Outcome {
+		sl := a[1].(*SliceV)
+		var parts []string
+		for i := 0; i < sl.Len; i++ {
+			parts = append(parts, constStr(c.S.load(&Ptr{Obj: sl.Arr, Path: []int{sl.Off + i}}), "WF clause"))
+		}
+		c.S.W.Ghost["wf:"+constStr(a[0], "type")] = parts
+		return retNone()
+	})
+	reg(zz+"IsModuleAddr", func(c *CallCtx, a []Value) []Outcome { return ret1(App("ismod", a[0].(*BytesV).T)) })
 	reg(zz+"RandChoiceMode", func(c *CallCtx, a []Value) []Outcome {
 		c.S.W.RandChoice = a[0] == TTrue
 		return retNone()
@@ -308,12 +355,6 @@ func (e *Engine) withEvals(s *State, asserts []*Term) []*Term {
 		ev := MkVar(fmt.Sprintf("evalx.%d", i), en.T.Sort)
 		out = append(out, Eq(ev, en.T))
 	}
-	for i, en := range s.W.Nondet {
-		if en.T.Op != "var" {
-			ev := MkVar(fmt.Sprintf("eval.%d.%s", i, sanitize(en.Tag)), en.T.Sort)
-			out = append(out, Eq(ev, en.T))
-		}
-	}
 	return out
 }
 
@@ -323,14 +364,14 @@ func (e *Engine) checkObligation(s *State, id string, cond *Term) {
 		r.Verdict, r.Solver = "discharged", "simp"
 	} else {
 		asserts := append(s.pcTerms(), Not(cond))
-		v, m, who := s.pf.Check(e.withEvals(s, asserts), e.Cfg.AssertMs, true)
+		v, m, syms, who := s.pf.CheckSyms(e.withEvals(s, asserts), e.Cfg.AssertMs, true)
 		r.Solver = who
 		switch v {
 		case Unsat:
 			r.Verdict = "discharged"
 		case Sat:
 			r.Verdict = "violated"
-			r.Scenario = e.scenario(s, m, id)
+			r.Scenario = e.scenario(s, NewCachedModel(nil, m, syms), id)
 		default:
 			r.Verdict = "unknown"
 		}
@@ -354,47 +395,68 @@ func (e *Engine) logfAlways(format string, a ...interface{}) {
 	}
 }
 
-// scenario converts a solver model into concrete inputs.
-func (e *Engine) scenario(s *State, m Model, ob string) *Scenario {
+// scenario converts a model into concrete inputs for the native replay.
+func (e *Engine) scenario(s *State, cm *CachedModel, ob string) *Scenario {
 	sc := &Scenario{Harness: e.Harness, Ob: ob, Nondet: map[string]interface{}{}}
-	for i, en := range s.W.Nondet {
-		sym := en.T.SV
-		if en.T.Op != "var" {
-			sym = fmt.Sprintf("eval.%d.%s", i, sanitize(en.Tag))
-		}
-		raw, ok := m[sym]
-		if !ok {
-			if en.T.IsConst() {
-				raw = smtExpr(en.T, nil)
-			} else {
-				continue
+	toGo := func(v MVal) interface{} {
+		switch {
+		case v.I != nil:
+			if v.I.IsInt64() {
+				return v.I.Int64()
 			}
+			return v.I.String()
+		case v.B != nil:
+			return *v.B
+		case v.S != nil:
+			return map[string]interface{}{"hex": fmt.Sprintf("%x", *v.S)}
 		}
-		sc.Nondet[en.Tag] = smtToGo(raw, en.T.Sort)
+		return nil
+	}
+	for _, en := range s.W.Nondet {
+		v, ok := cm.Eval(en.T)
+		if !ok {
+			continue
+		}
+		sc.Nondet[en.Tag] = toGo(v)
 		sc.Order = append(sc.Order, en.Tag)
+	}
+	evalStr := func(i int) (string, bool) {
+		v, ok := cm.Eval(s.W.Evals[i].T)
+		if !ok || v.S == nil {
+			return "", false
+		}
+		return *v.S, true
 	}
 	// abstract address strings -> valid bech32 of the bytes the model decodes them to
 	rename := map[string]string{}
+	canonical := map[string]bool{}
 	for i, en := range s.W.Evals {
 		if strings.HasPrefix(en.Tag, "addr|") && en.Kind == "app" && i+1 < len(s.W.Evals) {
-			rs, ok1 := m[fmt.Sprintf("evalx.%d", i)]
-			rb, ok2 := m[fmt.Sprintf("evalx.%d", i+1)]
-			if ok1 && ok2 {
-				str, by := string(smtUnescape(rs)), smtUnescape(rb)
-				if len(by) == 20 && len(str) == 42 {
-					rename[str] = Bech32Encode("jkl", by)
+			str, ok1 := evalStr(i)
+			by, ok2 := evalStr(i + 1)
+			if ok1 && ok2 && len(by) == 20 && len(str) == 42 {
+				rename[str] = Bech32Encode("jkl", []byte(by))
+				// is this spelling the canonical one (the value of AccAddress.String()) in the model?
+				if cv, ok := cm.Eval(App("b32enc", s.W.Evals[i+1].T)); ok && cv.S != nil && *cv.S == str {
+					canonical[str] = true
 				}
 			}
 		}
 	}
+	var olds []string
 	if len(rename) > 0 {
 		// two spellings of the same bytes: keep them distinct by upper-casing the later ones
 		seen := map[string]string{}
-		var olds []string
 		for o := range rename {
 			olds = append(olds, o)
 		}
-		sort.Strings(olds)
+		// canonical spellings first: they keep the lower-case form
+		sort.Slice(olds, func(i, j int) bool {
+			if canonical[olds[i]] != canonical[olds[j]] {
+				return canonical[olds[i]]
+			}
+			return olds[i] < olds[j]
+		})
 		for _, o := range olds {
 			n := rename[o]
 			if prev, dup := seen[n]; dup && prev != o {
@@ -403,6 +465,7 @@ func (e *Engine) scenario(s *State, m Model, ob string) *Scenario {
 				seen[n] = o
 			}
 		}
+		sort.Strings(olds)
 		for tag, v := range sc.Nondet {
 			if mm, ok := v.(map[string]interface{}); ok {
 				if hx, ok := mm["hex"].(string); ok {
@@ -419,23 +482,23 @@ func (e *Engine) scenario(s *State, m Model, ob string) *Scenario {
 	// table bases and predicates
 	var cur *BalRec
 	for i, en := range s.W.Evals {
-		raw, ok := m[fmt.Sprintf("evalx.%d", i)]
+		v, ok := cm.Eval(en.T)
 		if !ok {
 			continue
 		}
 		parts := strings.Split(en.Tag, "|")
 		switch {
-		case parts[0] == "tbl" && en.Kind == "app":
-			sc.Bal = append(sc.Bal, BalRec{Table: parts[1], Amount: fmt.Sprint(smtToGo(raw, SInt))})
+		case parts[0] == "tbl" && en.Kind == "app" && v.I != nil:
+			sc.Bal = append(sc.Bal, BalRec{Table: parts[1], Amount: v.I.String()})
 			cur = &sc.Bal[len(sc.Bal)-1]
-		case parts[0] == "tbl" && strings.HasSuffix(en.Tag, "arg0") && cur != nil:
-			cur.K1Hex = fmt.Sprintf("%x", smtUnescape(raw))
-		case parts[0] == "tbl" && strings.HasSuffix(en.Tag, "arg1") && cur != nil:
-			cur.K2 = string(smtUnescape(raw))
-		case parts[0] == "blocked" && en.Kind == "app":
-			if raw == "true" && i+1 < len(s.W.Evals) {
-				if r2, ok := m[fmt.Sprintf("evalx.%d", i+1)]; ok {
-					sc.Blocked = append(sc.Blocked, fmt.Sprintf("%x", smtUnescape(r2)))
+		case parts[0] == "tbl" && strings.HasSuffix(en.Tag, "arg0") && cur != nil && v.S != nil:
+			cur.K1Hex = fmt.Sprintf("%x", *v.S)
+		case parts[0] == "tbl" && strings.HasSuffix(en.Tag, "arg1") && cur != nil && v.S != nil:
+			cur.K2 = *v.S
+		case parts[0] == "blocked" && en.Kind == "app" && v.B != nil:
+			if *v.B && i+1 < len(s.W.Evals) {
+				if r2, ok := evalStr(i + 1); ok {
+					sc.Blocked = append(sc.Blocked, fmt.Sprintf("%x", r2))
 				}
 			}
 		}
